@@ -549,8 +549,24 @@ def thread_ops():
             _light(UBXMessage("NAV", "NAV-DOP", GET, gDOP=84.17, pDOP=0.29, tDOP=1.15)),
         ),
         "esf_meas": lambda: _light(UBXMessage("ESF", "ESF-MEAS", SET, timeTag=1, numMeas=2, calibTtagValid=1, dataField_01=5, dataType_02=9, dataField_03=77)),
+        # the shortest message there is (a poll: no payload), built, then held while it is inspected and an assignment
+        # is attempted: explored to 2 preemptions also in the quick tier (equal messages built concurrently)
+        "poll_null": lambda: _held(UBXMessage("CFG", "CFG-PRT", POLL)),
+        "parse_null": lambda: _held(UBXReader.parse(ref.frame(0x06, 0x00, b""), msgmode=POLL)),
     }
     return ops
+
+
+def _held(m):
+    a = _light(m)
+    try:
+        m.rogue = 1
+        mut = "assignment_accepted"
+    except ube.UBXMessageError:
+        mut = "immutable"
+    except Exception as e:  # noqa: BLE001
+        mut = "assignment_raises_" + type(e).__name__
+    return (a, mut, _light(m), str(m))
 
 
 def seq_result(fn):
@@ -813,7 +829,7 @@ def run_tier(tier, t0):
     pairs = list(itertools.combinations_with_replacement(ops, 2))
     QUICK_PAIRS = [("parse_gnss_1", "parse_gnss_2"), ("parse_gnss_2", "parse_gnss_2"), ("build_gnss", "parse_gnss_1"), ("build_gnss", "build_gnss"),
                    ("config_set", "parse_valget"), ("tp5_poll", "tp5_set"), ("tp5_poll", "tp5_poll"), ("build_gnss", "fail_build"),
-                   ("fail_build", "parse_gnss_2"), ("build_scaled", "build_scaled"), ("build_scaled", "parse_gnss_1"), ("esf_meas", "esf_meas"), ("esf_meas", "parse_gnss_1"), ("config_set", "config_set")]
+                   ("fail_build", "parse_gnss_2"), ("build_scaled", "build_scaled"), ("build_scaled", "parse_gnss_1"), ("esf_meas", "esf_meas"), ("esf_meas", "parse_gnss_1"), ("config_set", "config_set"), ("poll_null", "poll_null"), ("parse_null", "poll_null")]
     if q:
         pairs = [p for p in pairs if p in QUICK_PAIRS]
     K = 4
@@ -821,6 +837,10 @@ def run_tier(tier, t0):
         for first in (0, 1):
             for k in range(K):
                 blocks.append(("sched", [a, b], 1, None, first, (k, K)))
+    for a, b in (("poll_null", "poll_null"), ("parse_null", "poll_null")):
+        for first in (0, 1):
+            for k in range(K):
+                blocks.append(("sched", [a, b], 2, 8000, first, (k, K)))
     blocks += [("readerhist", m) for m in range(4)]
     blocks.append(("threadvals",))
     COLD_PAIRS = [("parse_valget", "parse_valget"), ("config_set", "parse_valget"), ("config_set", "config_set"), ("parse_gnss_1", "parse_gnss_2"), ("build_gnss", "parse_gnss_1"), ("tp5_poll", "tp5_set")]
